@@ -14,10 +14,12 @@ std::string vD(const std::vector<double> &v) { std::string s = "["; for (size_t 
 bool sorted(const std::vector<double> &v) { return std::is_sorted(v.begin(), v.end()); }
 
 struct H {
-    Ctx &c; Rng &r; File f; Block b; DataArray a; std::vector<MD> m; std::string path; std::vector<DataFrame> frames;
+    Ctx &c; Rng &r; File f; Block b; DataArray a, other; /* two independently obtained handles of the array take turns */ std::vector<MD> m; std::string path; std::vector<DataFrame> frames;
     H(Ctx &cx) : c(cx), r(cx.rng) {}
 
+    void turn() { try { if (a && !other) other = b.getDataArray(r.chance(0.5) ? a.name() : a.id()); if (other && r.chance(0.5)) { std::swap(a, other); c.count("handle-turns"); } } catch (std::exception &) {} }
     void compare(const char *when) {
+        turn();
         ndsize_t n = 0; try { n = a.dimensionCount(); } catch (std::exception &e) { c.check(false, "C13/count-exception", e.what()); return; }
         c.check((size_t)n == m.size(), "C13/count", [&] { return "dimensionCount()=" + str(n) + " model " + str(m.size()) + " (" + when + ")"; });
         std::vector<Dimension> all; try { all = a.dimensions(); } catch (std::exception &e) { c.check(false, "C13/dimensions-exception", e.what()); }
@@ -80,6 +82,7 @@ struct H {
     std::string gen_label() { static const char *v[] = {"time", "voltage", "l a b e l", "\xc3\xa4", "x"}; return r.pick(v); }
 
     void op() {
+        turn();
         int k = (int)r.weighted({4, 4, 3, 2, 8, 1, 2, 1});
         size_t cur = m.size();
         if (cur >= 4 && k <= 3) k = 4;
@@ -161,8 +164,8 @@ struct H {
                 c.check(threw, "C13/illegal-accepted/appendAliasRangeDimension/descriptors-present", "appendAliasRangeDimension accepted on an array that already has " + str(m.size()) + " descriptor(s)");
                 break; }
             case 5: { c.op("deleteDimensions"); bool ok = a.deleteDimensions(); m.clear(); c.check(ok && a.dimensionCount() == 0 && a.dimensions().empty(), "C13/deleteDimensions-leaves-some", "dimensions remain after deleteDimensions"); break; }
-            case 6: { c.op("close+reopen"); std::string an = a.name(); a = nix::none; b = nix::none; frames.clear(); f.close(); f = File::open(path, r.chance(0.5) ? FileMode::ReadWrite : FileMode::ReadOnly); b = f.getBlock("b"); a = b.getDataArray(an); compare("after reopen");
-                if (f.fileMode() == FileMode::ReadOnly) { a = nix::none; b = nix::none; f.close(); f = File::open(path, FileMode::ReadWrite); b = f.getBlock("b"); a = b.getDataArray(an); } for (auto &x : b.dataFrames()) frames.push_back(x); break; }
+            case 6: { c.op("close+reopen"); std::string an = a.name(); a = nix::none; other = nix::none; b = nix::none; frames.clear(); f.close(); f = File::open(path, r.chance(0.5) ? FileMode::ReadWrite : FileMode::ReadOnly); b = f.getBlock("b"); a = b.getDataArray(an); compare("after reopen");
+                if (f.fileMode() == FileMode::ReadOnly) { a = nix::none; other = nix::none; b = nix::none; f.close(); f = File::open(path, FileMode::ReadWrite); b = f.getBlock("b"); a = b.getDataArray(an); } for (auto &x : b.dataFrames()) frames.push_back(x); break; }
             }
         } catch (std::exception &e) { c.check(false, "C13/legal-op-threw/op" + str(k), std::string("valid operation threw: ") + e.what()); }
         compare("after op"); c.fp(str(k));
@@ -176,7 +179,7 @@ struct H {
         DataType dt = r.pick(ts); c.fp("P" + dtname(dt) + str(R));
         a = b.createDataArray("arr", "t", dt, to_nd(shape));
         int n = (int)r.range(12, 30); for (int i = 0; i < n; i++) op();
-        a = nix::none; b = nix::none; frames.clear(); f.close();
+        a = nix::none; other = nix::none; b = nix::none; frames.clear(); f.close();
     }
     // interleaved writes through the alias dimension and through the array
     void run_alias() {
@@ -204,12 +207,12 @@ struct H {
                 else if (q == 7) { c.op("alias unit non-SI through-array"); bool threw = false; try { a.unit("furlongs"); } catch (std::exception &) { threw = true; } c.check(threw, "C13/illegal-accepted/alias-array-unit", "non-SI unit accepted on an aliased array"); if (!threw) x.unit = std::string("furlongs"); }
                 else if (q == 8) { if (r.chance(0.5)) { c.op("alias label none through-dimension"); rd.label(nix::none); } else { c.op("alias label none through-array"); a.label(nix::none); } x.label = boost::none; }
                 else if (q == 9) { std::vector<long> ns = {(long)x.ticks.size() + (long)r.range(-2, 3)}; if (ns[0] < 1) ns[0] = 1; c.op("alias dataExtent-through-array"); a.dataExtent(to_nd(ns)); size_t old = x.ticks.size(); x.ticks.resize((size_t)ns[0], 0.0); if ((size_t)ns[0] > old && old > 0 && x.ticks[old - 1] > 0.0) { /* grown cells read as zero: the alias axis is then not ascending, which the array entry point allows - not judged */ std::vector<double> t = int_ticks(); a.setData(t); x.ticks = t; } }
-                else { c.op("close+reopen"); a = nix::none; b = nix::none; f.close(); f = File::open(path, FileMode::ReadWrite); b = f.getBlock("b"); a = b.getDataArray("alias"); }
+                else { c.op("close+reopen"); a = nix::none; other = nix::none; b = nix::none; f.close(); f = File::open(path, FileMode::ReadWrite); b = f.getBlock("b"); a = b.getDataArray("alias"); }
             } catch (std::exception &e) { c.check(false, "C13/alias/legal-op-threw", std::string("valid alias operation threw: ") + e.what()); }
             compare("alias op"); c.fp(str(q));
         }
         if (r.chance(0.5)) { c.op("deleteDimensions"); a.deleteDimensions(); m.clear(); c.check(a.dimensionCount() == 0, "C13/deleteDimensions-leaves-some", "alias dimension remains"); std::vector<double> back; a.getData(back); c.count("alias_deleted"); }
-        a = nix::none; b = nix::none; f.close();
+        a = nix::none; other = nix::none; b = nix::none; f.close();
     }
 };
 void run_case(Ctx &c) { H h(c); if (c.index % 3 == 2) h.run_alias(); else h.run_plain(); c.nontrivial = c.checks > 20; }
@@ -223,7 +226,7 @@ void run_witness(Ctx &c, const std::string &name) {
         if (h.m.size() < 4) { c.op("appendSampledDimension legal-interval negative-offset"); h.a.appendSampledDimension(0.5, "", "", -0.25); MD d; d.kind = DimensionType::Sample; d.interval = 0.5; d.offset = -0.25; h.m.push_back(d); }
         h.compare("witness");
     }
-    c.nontrivial = true; h.a = nix::none; h.b = nix::none; h.f.close();
+    c.nontrivial = true; h.a = nix::none; h.other = nix::none; h.b = nix::none; h.f.close();
 }
 Reg reg({"C13", ncases, run_case, witnesses, run_witness, 120});
 }  // namespace
